@@ -364,8 +364,23 @@ struct Seen {
     state: NsState,
 }
 
+/// The name accessors split a qualified name at its colon: prefix() + ':' + local_name() == name.
+fn name_parts_ok(q: QName) -> bool {
+    let n = q.as_ref();
+    let (want_prefix, want_local): (Option<&[u8]>, &[u8]) = match n.iter().position(|&b| b == b':') {
+        Some(i) => (Some(&n[..i]), &n[i + 1..]),
+        None => (None, n),
+    };
+    q.local_name().as_ref() == want_local && q.prefix().map(|p| p.as_ref().to_vec()) == want_prefix.map(|p| p.to_vec())
+}
+
 fn see_start<Rd>(r: &NsReader<Rd>, e: &BytesStart, attr: u8) -> (Option<R>, Option<R>, Option<bool>) {
-    let own = R::of(&r.resolve_element(e.name()).0);
+    let mut own = R::of(&r.resolve_element(e.name()).0);
+    // the event's own accessors (BytesStart::local_name, QName::local_name / prefix of the name and of every key)
+    let local_ok = name_parts_ok(e.name()) && e.local_name().as_ref() == e.name().local_name().as_ref() && e.attributes().flatten().all(|a| name_parts_ok(a.key));
+    if !local_ok {
+        own = R::Unknown(b"<local_name()/prefix() of the event's name or of an attribute key do not split the name at its colon>".to_vec());
+    }
     let mut own_attr = None;
     if attr != 0 {
         let want: &[u8] = if attr == 1 { b"x" } else { b"p:x" };
@@ -681,6 +696,9 @@ fn build_doc(f: &Family, mut i: u64, thorough: bool) -> Option<Elem> {
     let c_xml = take(2) == 1;
     if i != 0 {
         return None;
+    }
+    if nil == 3 && (c_attr != 0 || c_xml || leaf_form == 2) {
+        return None; // the two-XSI-prefixes variant is combined with one representative of the other dimensions
     }
     if c_xml && (nil != 0 || leaf_form != 1 || c_attr != 0) {
         return None; // the redundant xmlns:xml declaration is combined with one representative of the other dimensions
